@@ -197,8 +197,12 @@ func main() {
 		{"extra-payload-field", "envelope", func(s *script) { s.mutate = edit(func(m map[string]any) { m["extra"] = 1 }) }, true},
 		{"extra-payload-field-null", "envelope", func(s *script) { s.mutate = edit(func(m map[string]any) { m["extra"] = nil }) }, true},
 		{"extra-desc-field", "envelope", func(s *script) { s.mutate = edit(func(m map[string]any) { ta(m)["extra"] = "x" }) }, true},
-		{"extra-desc-field-object", "envelope", func(s *script) { s.mutate = edit(func(m map[string]any) { ta(m)["subject"] = map[string]any{"digest": otherDigest} }) }, true},
-		{"known-desc-field-urls", "envelope", func(s *script) { s.mutate = edit(func(m map[string]any) { ta(m)["urls"] = []string{"https://example.invalid"} }) }, false},
+		{"extra-desc-field-object", "envelope", func(s *script) {
+			s.mutate = edit(func(m map[string]any) { ta(m)["subject"] = map[string]any{"digest": otherDigest} })
+		}, true},
+		{"known-desc-field-urls", "envelope", func(s *script) {
+			s.mutate = edit(func(m map[string]any) { ta(m)["urls"] = []string{"https://example.invalid"} })
+		}, false},
 		{"spelling-TargetArtifact", "envelope", func(s *script) { s.mutate = respell("targetArtifact", "TargetArtifact") }, true},
 		{"spelling-targetartifact", "envelope", func(s *script) { s.mutate = respell("targetArtifact", "targetartifact") }, true},
 		{"spelling-TARGETARTIFACT", "envelope", func(s *script) { s.mutate = respell("targetArtifact", "TARGETARTIFACT") }, true},
@@ -238,12 +242,12 @@ func main() {
 	}
 	specs := lib.KeySpecs
 	type caseT struct {
-		devs    []int
-		mode    string
-		spec    string
-		format  string
-		blob    bool
-		annots  bool
+		devs   []int
+		mode   string
+		spec   string
+		format string
+		blob   bool
+		annots bool
 	}
 	var cases []caseT
 	for si, spec := range specs {
